@@ -115,6 +115,59 @@ fn ip_hex(ip: IpAddr) -> String {
     }
 }
 
+
+/// C18: one IPv6 client fills a torrent with 3650..3700 leechers (numwant 1: tiny replies), then asks for everybody
+/// (numwant absent and a number above the swarm size: replies of more than 64 KiB that the configuration allows),
+/// then for all but one and for 1 (the connection must still be usable).
+fn big_swarm(out: &mut impl Write, server: &mut Server, r: &mut Sm) {
+    let src: IpAddr = "::1".parse().unwrap();
+    let mut hash = [b'h'; 20];
+    hash[0] = b'a' + r.below(6) as u8;
+    let n = 3650 + r.below(51) as usize;
+    let mut stream = connect(src, server.port);
+    let mut one = |stream: &mut Option<TcpStream>, out: &mut dyn Write, port: u16, numwant: Option<usize>, pidn: usize| {
+        let mut pid = [b'-'; 20];
+        let t = format!("{:06}", pidn);
+        pid[14..20].copy_from_slice(t.as_bytes());
+        let rq = Request::Announce(AnnounceRequest {
+            info_hash: InfoHash(hash), peer_id: PeerId(pid), port, bytes_uploaded: 0, bytes_downloaded: 0, bytes_left: 1,
+            event: AnnounceEvent::Started, numwant, key: None,
+        });
+        let mut b = Vec::new();
+        rq.write(&mut b, b"").unwrap();
+        let line = format!("ann 6 {} {} {} started 1 {} 4000000000 {}", hex(&hash), ip_hex(src), port, numwant.map(|n| n as i64).unwrap_or(-1), hex(&pid));
+        if stream.is_none() { *stream = connect(src, server.port); }
+        let reply = match stream.as_mut() {
+            None => { crate::net::note_timeout(); Reply::None("connect-failed".into()) }
+            Some(s) => { if s.write_all(&b).is_ok() { read_response(s) } else { crate::net::note_timeout(); Reply::None("write-failed".into()) } }
+        };
+        match reply {
+            Reply::None(why) => { *stream = None; writeln!(out, "{} => NOREPLY {}", line, why).unwrap(); }
+            Reply::Ok { body, frame, head } => {
+                let frame = format!("{} H:{}:{}", frame, hex(&head), body.len());
+                match Response::parse_bytes(&body) {
+                    Ok(Response::Announce(a)) => {
+                        let mut peers: Vec<String> = a.peers.0.iter().map(|p| format!("{}:{}", hex(&p.ip_address.octets()), p.port)).collect();
+                        peers.extend(a.peers6.0.iter().map(|p| format!("{}:{}", hex(&p.ip_address.octets()), p.port)));
+                        let wrong = !a.peers.0.is_empty();
+                        writeln!(out, "{} => {} {} {} {}", line, a.complete, a.incomplete, if peers.is_empty() { "-".to_string() } else { peers.join(";") },
+                            if wrong { "WRONGFAMILY".to_string() } else { format!("F:{}", frame) }).unwrap();
+                    }
+                    Ok(Response::Failure(f)) => writeln!(out, "{} => FAILURE {}", line, hex(f.failure_reason.as_bytes())).unwrap(),
+                    _ => writeln!(out, "{} => NOREPLY body-is-not-a-bencoded-announce-reply-{}", line, hex(&body[..body.len().min(40)])).unwrap(),
+                }
+            }
+        }
+    };
+    for i in 0..n {
+        one(&mut stream, out, 1000 + i as u16, Some(1), i);
+    }
+    one(&mut stream, out, 900, None, 900_000);
+    one(&mut stream, out, 901, Some(3999), 900_001);
+    one(&mut stream, out, 902, Some(n + 1), 900_002);   // one fewer than the others: the two-slice branch with few possible draws
+    one(&mut stream, out, 903, Some(1), 900_003);
+}
+
 pub fn run(out: &mut impl Write, seed: u64, cases: usize, _replay: &str) {
     let mut master = Sm::new(seed);
     for case in 0..cases {
@@ -129,16 +182,18 @@ pub fn run(out: &mut impl Write, seed: u64, cases: usize, _replay: &str) {
                 let out = &mut case_buf;
                 let mut r = r0.clone();
                 'case: {
+                        // C18: a swarm whose full reply is larger than 64 KiB, under a configuration that allows it (every eighth case)
+                        let big_case = case % 8 == 5;
                         let boundary_case = case % 4 == 3; // C18: worst-case scrape around the reply-buffer boundary, default limits
                         let socket_workers = r.pick(&[1usize, 2, 3]);
                         let swarm_workers = r.pick(&[1usize, 2, 3]);
                         let keep_alive = r.chance(70);
                         // C03: every third history runs behind a (simulated) reverse proxy - few upstream connections carry the
                         // requests of many clients, each named by the last address of the last X-Forwarded-For header of ITS request
-                        let proxy = !boundary_case && case % 3 == 1;
-                        let keep_alive = keep_alive || proxy;   // a proxy keeps its upstream connections open
+                        let proxy = !boundary_case && !big_case && case % 3 == 1;
+                        let keep_alive = keep_alive || proxy || big_case;   // a proxy keeps its upstream connections open
                         let vips: Vec<IpAddr> = ["10.0.0.1", "10.0.0.2", "192.0.2.7", "2001:db8::5", "2001:db8::6", "::ffff:10.0.0.9"].iter().map(|s| s.parse().unwrap()).collect();
-                        let (max_peers, max_scrape) = if boundary_case { (50usize, 100usize) } else { (r.pick(&[1usize, 2, 3, 50]), r.pick(&[2usize, 3, 100])) };
+                        let (max_peers, max_scrape) = if big_case { (4000usize, 100usize) } else if boundary_case { (50usize, 100usize) } else { (r.pick(&[1usize, 2, 3, 50]), r.pick(&[2usize, 3, 100])) };
                         let args = vec![
                             format!("socket_workers={}", socket_workers), format!("swarm_workers={}", swarm_workers),
                             format!("keep_alive={}", keep_alive), format!("max_peers={}", max_peers), format!("max_scrape_torrents={}", max_scrape),
@@ -150,8 +205,16 @@ pub fn run(out: &mut impl Write, seed: u64, cases: usize, _replay: &str) {
                             break 'case;
                         };
                         writeln!(out, "cfg http {} {}", max_peers, max_scrape).unwrap();
-                        writeln!(out, "net socket_workers={} swarm_workers={} keep_alive={} boundary={} proxy={}", socket_workers, swarm_workers, keep_alive, boundary_case, proxy).unwrap();
+                        writeln!(out, "net socket_workers={} swarm_workers={} keep_alive={} boundary={} proxy={} bigswarm={}", socket_workers, swarm_workers, keep_alive, boundary_case, proxy, big_case).unwrap();
                         writeln!(out, "new").unwrap();
+                        if big_case {
+                            big_swarm(out, &mut server, &mut r);
+                            if let Some(l) = server.exit_line(Duration::from_millis(0)) {
+                                writeln!(out, "net TRACKER-EXITED {}", l.replace(' ', "_")).unwrap();
+                            }
+                            server.stop();
+                            break 'case;
+                        }
                         // alnum hashes (can be written raw); first byte spreads them over the swarm workers
                         let hashes: Vec<[u8; 20]> = (0..6u8).map(|i| { let mut h = [b'h'; 20]; h[0] = b'a' + i; h[19] = b'0' + i; h }).collect();
                         let srcs: Vec<IpAddr> = vec!["127.0.0.1".parse().unwrap(), "127.0.0.2".parse().unwrap(), "127.0.0.3".parse().unwrap(), "::1".parse().unwrap()];
